@@ -190,6 +190,10 @@ def strScore : Option Rat → Str
     let t := (q * 10).floor.toNat
     natToStr (t / 10) ++ '.' :: natToStr (t % 10)
 
+/-- `hash(x)`: the hash function itself is opaque (it depends on the interpreter and the hash seed); what the library
+    decides is WHICH key is hashed -/
+abbrev hashKey (x : Str) : Str := x
+
 /-- `s.endswith(p)` -/
 def endsWith (p s : Str) : Bool := p.reverse.isPrefixOf s.reverse
 
